@@ -19,7 +19,7 @@ EXPLANATION = (
 ASSUMPTIONS = [
     "Lean 4 kernel; axioms propext, Classical.choice, Quot.sound only",
     "Sem.Ops / Sem.Wgsl / Sem.IR / Sem.Spv are my reading of the WGSL and SPIR-V specifications (L1, trusted); floats through Lean Float32 (+ - * / and comparisons only)",
-    "one invocation, no textures/atomics/barriers/subgroups; float builtins other than abs/min/max not executed",
+    "one invocation, no textures/atomics/barriers/subgroups; float builtins executed: abs/min/max and the exact roundings floor/ceil/trunc/round (Lean Float32 floorf/ceilf/roundf, trusted; ties per language specification); the transcendental ones are not",
     "Go harness: generator, probes, opcode extraction by multiset difference against a baseline program",
 ]
 N = {"quick": (400, 600), "thorough": (20000, 40000)}
